@@ -120,7 +120,7 @@ func attrSummary(attrs []bgp.PathAttributeInterface) string {
 		case *bgp.PathAttributeExtendedCommunities:
 			var cs []string
 			for _, c := range v.Value {
-				cs = append(cs, c.String())
+				cs = append(cs, strings.ReplaceAll(c.String(), " ", "_"))
 			}
 			sort.Strings(cs)
 			parts = append(parts, "ec["+strings.Join(cs, ",")+"]")
@@ -157,7 +157,10 @@ func (p *fakePeer) reader() {
 		if _, err := io.ReadFull(p.conn, body); err != nil {
 			return
 		}
-		m, err := bgp.ParseBGPBody(h, body, p.opt)
+		p.mu.Lock()
+		opt := p.opt
+		p.mu.Unlock()
+		m, err := bgp.ParseBGPBody(h, body, opt)
 		now := int(time.Since(p.start).Seconds())
 		p.mu.Lock()
 		if err != nil || m == nil {
@@ -373,12 +376,12 @@ func (w *world) up(n sx.Node) {
 	p.eors = 0
 	p.start = w.t0 // message instants are reported in scenario time
 	p.done = make(chan struct{})
+	open, hold := w.mkOpen(p, n)
 	go p.reader()
 	if err := w.s.VerifPassConn(srv); err != nil {
 		w.out = append(w.out, "(passconn-error)")
 		return
 	}
-	open, hold := w.mkOpen(p, n)
 	if ok, _ := hasOpt(n, 2, "noopen"); ok {
 		return
 	}
@@ -430,7 +433,12 @@ func (w *world) mkOpen(p *fakePeer, n sx.Node) (*bgp.BGPMessage, uint16) {
 	if ok, _ := hasOpt(n, 2, "rtc"); ok {
 		caps = append(caps, bgp.NewCapMultiProtocol(bgp.RF_RTC_UC))
 	}
-	p.opt = &bgp.MarshallingOption{AddPath: map[bgp.Family]bgp.BGPAddPathMode{}}
+	popt := &bgp.MarshallingOption{AddPath: map[bgp.Family]bgp.BGPAddPathMode{}}
+	defer func() {
+		p.mu.Lock()
+		p.opt = popt
+		p.mu.Unlock()
+	}()
 	sendOpt := &bgp.MarshallingOption{AddPath: map[bgp.Family]bgp.BGPAddPathMode{}}
 	if ok, v := hasOpt(n, 2, "ap"); ok { // ap=<mode 1 recv,2 send,3 both> as announced by the fake peer
 		var k int
@@ -438,7 +446,7 @@ func (w *world) mkOpen(p *fakePeer, n sx.Node) (*bgp.BGPMessage, uint16) {
 		caps = append(caps, bgp.NewCapAddPath([]*bgp.CapAddPathTuple{bgp.NewCapAddPathTuple(bgp.RF_IPv4_UC, bgp.BGPAddPathMode(k))}))
 		if k&1 != 0 { // the fake peer receives path ids if the server is configured to send them
 			if q := w.peerConf[n.At(1).Atom]; q != nil && q.AfiSafis[0].AddPaths.Config.SendMax > 0 {
-				p.opt.AddPath[bgp.RF_IPv4_UC] = bgp.BGP_ADD_PATH_RECEIVE
+				popt.AddPath[bgp.RF_IPv4_UC] = bgp.BGP_ADD_PATH_RECEIVE
 			}
 		}
 		if k&2 != 0 {
@@ -741,6 +749,30 @@ func (w *world) policy(n sx.Node) {
 	}
 }
 
+// serverGoroutines counts the goroutines that are running code of the server or of its queues (the harness's own
+// goroutines and the runtime's are not counted)
+func serverGoroutines() int {
+	var buf strings.Builder
+	pprof.Lookup("goroutine").WriteTo(&buf, 1)
+	total, n, mine := 0, 0, false
+	flush := func() {
+		if mine {
+			total += n
+		}
+		n, mine = 0, false
+	}
+	for _, l := range strings.Split(buf.String(), "\n") {
+		if strings.Contains(l, " @ ") && !strings.HasPrefix(l, "#") {
+			flush()
+			fmt.Sscan(l, &n)
+		} else if strings.HasPrefix(l, "#") && (strings.Contains(l, "osrg/gobgp/v4/pkg/") || strings.Contains(l, "osrg/gobgp/v4/internal/pkg/") || strings.Contains(l, "eapache/channels")) {
+			mine = true
+		}
+	}
+	flush()
+	return total
+}
+
 func (w *world) step(n sx.Node) {
 	switch n.At(0).Atom {
 	case "up":
@@ -847,6 +879,13 @@ func (w *world) step(n sx.Node) {
 		if p := w.peers[n.At(1).Atom]; p != nil {
 			w.s.ResetPeer(context.Background(), &api.ResetPeerRequest{Address: p.addr.String()})
 		}
+	case "gcount":
+		// goroutines alive now (the whole process: harness goroutines included, they are constant per fake peer)
+		synctest.Wait()
+		w.out = append(w.out, fmt.Sprintf("(goroutines %d)", serverGoroutines()))
+		if os.Getenv("VERIF_SIM_STACKS") != "" {
+			pprof.Lookup("goroutine").WriteTo(os.Stderr, 1)
+		}
 	case "addvrf":
 		// (addvrf name rd (import rt...) (export rt...))
 		w.vrfGen++
@@ -897,7 +936,12 @@ func (w *world) step(n sx.Node) {
 					mp, _ := bgp.NewPathAttributeMpReachNLRI(bgp.RF_IPv4_VPN, []bgp.PathNLRI{{NLRI: nl}}, p.addr)
 					var ecs []bgp.ExtendedCommunityInterface
 					for _, t := range r.At(4).List {
-						if ec, err := bgp.ParseRouteTarget(t.Atom); err == nil {
+						if strings.HasPrefix(t.Atom, "color") {
+							// an extended community that is not a route target
+							var k int
+							fmt.Sscan(t.Atom[5:], &k)
+							ecs = append(ecs, bgp.NewColorExtended(uint32(k)))
+						} else if ec, err := bgp.ParseRouteTarget(t.Atom); err == nil {
 							ecs = append(ecs, ec)
 						}
 					}
